@@ -73,7 +73,7 @@ CHECKS = {
    "single server; the duplicate-id case is checked through the accounting equation of the statement only (ids unique per collection is the client's obligation)",
    "bounded-exhaustive input enumeration + explicit-state BFS over request histories vs reference", "DESIGN.md §4 C15"),
  "C16": (True, "seqx", "model_checking",
-   "Non-interference by lock-step differential execution: breadth-first search to depth 6 (thorough 8), de-duplicated on the complete inventory, over the product alphabet of two users (list; per collection create/get/delete/insert/insert3/update/search/filter-search/delete-point) on one real node through the assembled HTTP handler chain, for 10 user-id pairs (prefixes, key-concatenation collisions, '.', '..', space, percent, backslash, non-ASCII, trailing space); each user's sub-history runs alone on its own node and every response (status + canonical body) of the shared run must equal the solitary one; the shard-file inventory of the shared node must equal the union of the solitary ones.",
+   "Non-interference by lock-step differential execution: breadth-first search to depth 6 (thorough 8), de-duplicated on the complete inventory, over the product alphabet of two users (list; per collection create/get/delete/insert/insert3/update/search/filter-search/delete-point) on one real node through the assembled HTTP handler chain, for 14 user-id pairs (prefixes, key-concatenation collisions, '.', '..', space, percent, backslash, non-ASCII, trailing space, images of one another under name normalisations); each user's sub-history runs alone on its own node and every response (status + canonical body) of the shared run must equal the solitary one; the shard-file inventory of the shared node must equal the union of the solitary ones.",
    "whole requests are the unit of interleaving (node-database writes are serialised by bbolt); user ids without '/'",
    "explicit-state BFS over interleaved two-tenant histories of the real handlers with a differential (non-interference) oracle", "DESIGN.md §4 C16"),
  "C17": (True, "seqx", "model_checking",
